@@ -36,7 +36,10 @@ use scylla::frame::response::result::TableSpec;
 use scylla::frame::types::{Consistency, SerialConsistency};
 use scylla::policies::load_balancing::{DefaultPolicy, LoadBalancingPolicy, Plan, RoutingInfo};
 use scylla::routing::{NodeLocationPreference, ShardCount, Sharder, Token};
-use scylla::verif_hooks::cluster::{KeyspaceSpec, NodeSpec, cluster_from_topology_with_tablets, cluster_refresh, set_sharders};
+use scylla::verif_hooks::cluster::{
+    KeyspaceSpec, NodeSpec, cluster_from_topology_with_tablets, cluster_refresh, cluster_refresh_accepting,
+    cluster_refresh_topology_accepting, set_sharders,
+};
 use scylla::verif_hooks::pool::VerifPool;
 use std::cell::RefCell;
 use std::collections::HashMap;
@@ -432,7 +435,7 @@ fn run_plan(w: &[&str], ctx: &mut Ctx) -> String {
             .map(|t| t.reps.iter().filter(|(h, _)| peers.iter().any(|p| p.id == *h)).cloned().collect())
             .unwrap_or_default()
     });
-    observe(&cs, &peers, &kss, &cfg, &rq, tbl, samples, tablet_expect, ctx)
+    observe(&cs, &peers, &kss, &cfg, &rq, tbl, samples, tablet_expect, None, ctx)
 }
 
 /// The observation of a `plan` / `hist` case on a built cluster state. `tablet_expect`: `Some(replicas with shards)` of
@@ -448,6 +451,9 @@ fn observe(
     tbl: usize,
     samples: usize,
     tablet_expect: Option<Vec<(u64, u32)>>,
+    // the `Token` object to route with (stmt cases hand over what `calculate_token` returned, as `Session::execute`
+    // does - un-normalised); `None`: `Token::new(rq.token)`
+    raw_token: Option<Token>,
     ctx: &mut Ctx,
 ) -> String {
 
@@ -468,7 +474,7 @@ fn observe(
     let mut ri = RoutingInfo::default();
     ri.consistency = rq.consistency;
     ri.serial_consistency = rq.serial;
-    ri.token = rq.token.map(Token::new);
+    ri.token = raw_token.or(rq.token.map(Token::new));
     ri.table = table.as_ref();
     ri.is_confirmed_lwt = rq.lwt;
     ri.node_location_preference = &req_pref;
@@ -497,7 +503,9 @@ fn observe(
     let live = |p: &PeerSpec| !p.flags.contains('d') && !p.flags.contains('x');
     let permitted = |p: &PeerSpec| pref.dc().is_none() || cfg.failover || p.dc == pref.dc();
     let decl = tablet_expect.as_ref();
-    let tokn = rq.token.map(norm_token);
+    // (`Token::INVALID` = i64::MIN - what the CDC partitioner answers for a key shorter than 8 bytes - is no key's
+    // token: the statement says nothing about it)
+    let tokn = if raw_token.is_some_and(|t| t.value() == i64::MIN) { None } else { rq.token.map(norm_token) };
     // the shard ScyllaDB's algorithm gives the token on THIS node (its own nr_shards / msb_ignore; 0 without sharder)
     let node_shard = |h: u64, tok: i64| -> u32 {
         match by_id.get(&h).and_then(|p| parse_flags(&p.flags).flatten()) {
@@ -611,9 +619,13 @@ fn observe(
 // hist cases: tablet updates interleaved with metadata refreshes
 
 enum HOp {
+    /// tablet feedback as it arrives: the bytes stored under `tablets-routing-v1` in a response's custom payload
+    Payload(usize, usize, Vec<u8>),
     Learn(usize, usize, TabletSpec),
     Declare(usize, usize),
     Refresh(Vec<PeerSpec>),
+    /// a refresh whose host filter accepts every peer (`G`: `new_updated`, `H`: `new_with_updated_topology`)
+    RefreshAcc(Vec<PeerSpec>, bool),
 }
 
 fn parse_ks_tbl(s: &str) -> Option<(usize, usize)> {
@@ -637,8 +649,15 @@ fn parse_hops(s: &str) -> Option<Vec<HOp>> {
                     let (ks, tbl) = parse_ks_tbl(name)?;
                     Some(HOp::Learn(ks, tbl, parse_tablet(t)?))
                 }
+                "B" => {
+                    let (name, hexs) = rest.split_once('@')?;
+                    let (ks, tbl) = parse_ks_tbl(name)?;
+                    Some(HOp::Payload(ks, tbl, crate::util::unhex(hexs)?))
+                }
                 "E" => parse_ks_tbl(rest).map(|(ks, tbl)| HOp::Declare(ks, tbl)),
                 "R" => parse_topology(rest).map(HOp::Refresh),
+                "G" => parse_topology(rest).map(|p| HOp::RefreshAcc(p, false)),
+                "H" => parse_topology(rest).map(|p| HOp::RefreshAcc(p, true)),
                 _ => None,
             }
         })
@@ -690,9 +709,15 @@ fn run_hist(w: &[&str], ctx: &mut Ctx) -> String {
     // flags well-formed; a host keeps its sharder for the whole history
     let mut all: Vec<&PeerSpec> = peers0.iter().collect();
     for op in &ops {
-        if let HOp::Refresh(ps) = op {
+        if let HOp::Refresh(ps) | HOp::RefreshAcc(ps, _) = op {
             all.extend(ps.iter());
         }
+    }
+    // a history is driven either with rejected peers (R) or with accepted ones (G / H: every node must then read as
+    // enabled, i.e. no `d` flag - the override is what `calculate_new_topology` sees)
+    let acc = ops.iter().any(|o| matches!(o, HOp::RefreshAcc(..)));
+    if acc && (ops.iter().any(|o| matches!(o, HOp::Refresh(_))) || all.iter().any(|p| p.flags.contains('d'))) {
+        return "bad-case".into();
     }
     if all.iter().any(|p| parse_flags(&p.flags).is_none())
         || all.iter().any(|p| all.iter().any(|q| q.id == p.id && parse_flags(&q.flags) != parse_flags(&p.flags)))
@@ -701,7 +726,7 @@ fn run_hist(w: &[&str], ctx: &mut Ctx) -> String {
     }
     let mut declared: Vec<(usize, usize)> = Vec::new();
     for op in &ops {
-        if let HOp::Learn(ks, t, _) | HOp::Declare(ks, t) = op {
+        if let HOp::Learn(ks, t, _) | HOp::Declare(ks, t) | HOp::Payload(ks, t, _) = op {
             if !declared.contains(&(*ks, *t)) {
                 declared.push((*ks, *t));
             }
@@ -724,6 +749,15 @@ fn run_hist(w: &[&str], ctx: &mut Ctx) -> String {
                 HOp::Learn(ks, t, tab) => {
                     let reps: Vec<(uuid::Uuid, u32)> = tab.reps.iter().map(|(h, s)| (host_id(*h), *s)).collect();
                     cs.verif_update_tablets(&[(format!("k{}", ks), format!("t{}", t), tab.first, tab.last, reps)]);
+                }
+                HOp::Payload(ks, t, bytes) => {
+                    // `RawTablet::from_custom_payload` (what `Connection` does with the response), then `update_tablets`
+                    // (what the cluster worker does with it); a rejected payload teaches nothing
+                    let mut payload: HashMap<String, bytes::Bytes> = HashMap::new();
+                    payload.insert("tablets-routing-v1".to_owned(), bytes::Bytes::from(bytes.clone()));
+                    if let Some(Ok((first, last, reps))) = scylla::verif_hooks::tablets::raw_tablet_from_payload(&payload) {
+                        cs.verif_update_tablets(&[(format!("k{}", ks), format!("t{}", t), first, last, reps)]);
+                    }
                 }
                 HOp::Declare(..) => {}
                 HOp::Refresh(ps) => {
@@ -750,6 +784,27 @@ fn run_hist(w: &[&str], ctx: &mut Ctx) -> String {
                     }
                     cur_peers = ps;
                 }
+                HOp::RefreshAcc(ps, topology_only) => {
+                    // accepted peers: nodes that read as enabled take the (true, Some(node)) arms (kept when datacenter,
+                    // rack and address are unchanged, `inherit_with_ip_changed` for a new address), the others `Node::new`
+                    let before: Vec<(u64, Arc<scylla::cluster::Node>)> =
+                        cur_peers.iter().filter_map(|p| cs.get_node_by_host_id(host_id(p.id)).map(|n| (p.id, Arc::clone(n)))).collect();
+                    cs = if *topology_only {
+                        RT.with(|rt| rt.block_on(cluster_refresh_topology_accepting(&cs, &node_specs(ps))))
+                    } else {
+                        RT.with(|rt| rt.block_on(cluster_refresh_accepting(&cs, &node_specs(ps), &ks_specs, &tablet_tables)))
+                    };
+                    apply_sharders(&cs, ps);
+                    if std::env::var_os("C12_DEBUG").is_some() {
+                        let kept: Vec<u64> = before
+                            .iter()
+                            .filter(|(id, n)| cs.get_node_by_host_id(host_id(*id)).is_some_and(|m| Arc::ptr_eq(n, m)))
+                            .map(|(id, _)| *id)
+                            .collect();
+                        eprintln!("C12DEBUG accepting refresh: node objects kept {:?} of {:?}", kept, before.iter().map(|b| b.0).collect::<Vec<_>>());
+                    }
+                    cur_peers = ps;
+                }
             }
         }
         cs
@@ -759,17 +814,67 @@ fn run_hist(w: &[&str], ctx: &mut Ctx) -> String {
     let mut known: Vec<u64> = peers0.iter().map(|p| p.id).collect();
     let mut shadow: HashMap<(usize, usize), Vec<ShTablet>> = HashMap::new();
     let mut final_peers: &[PeerSpec] = &peers0;
-    for op in &ops {
-        match op {
-            HOp::Learn(ks, t, tab) => {
+    // the harness's own reading of a well-formed payload cell `tuple<bigint, bigint, list<tuple<uuid, int>>>`:
+    // the tablet owns (a, b], i.e. [a+1, b]; b <= a or a negative shard is refused
+    let decode = |b: &[u8]| -> Option<TabletSpec> {
+        let mut p = 0usize;
+        let mut cell = |p: &mut usize| -> Option<Vec<u8>> {
+            let n = i32::from_be_bytes(b.get(*p..*p + 4)?.try_into().ok()?);
+            *p += 4;
+            if n < 0 {
+                return None;
+            }
+            let v = b.get(*p..*p + n as usize)?.to_vec();
+            *p += n as usize;
+            Some(v)
+        };
+        let a = i64::from_be_bytes(cell(&mut p)?.try_into().ok()?);
+        let bb = i64::from_be_bytes(cell(&mut p)?.try_into().ok()?);
+        let list = cell(&mut p)?;
+        if bb <= a {
+            return None;
+        }
+        let n = i32::from_be_bytes(list.get(0..4)?.try_into().ok()?);
+        let mut q = 4usize;
+        let mut reps = Vec::new();
+        for _ in 0..n {
+            let len = i32::from_be_bytes(list.get(q..q + 4)?.try_into().ok()?) as usize;
+            let item = list.get(q + 4..q + 4 + len)?;
+            q += 4 + len;
+            // tuple<uuid, int>: [len 16][uuid][len 4][int]
+            if item.len() != 28 {
+                return None;
+            }
+            let id = u128::from_be_bytes(item[4..20].try_into().ok()?) as u64;
+            let shard = i32::from_be_bytes(item[24..28].try_into().ok()?);
+            if shard < 0 {
+                return None;
+            }
+            reps.push((id, shard as u32));
+        }
+        Some(TabletSpec { first: a + 1, last: bb, reps })
+    };
+    let decoded: Vec<Option<TabletSpec>> = ops.iter().map(|o| if let HOp::Payload(_, _, b) = o { decode(b) } else { None }).collect();
+    for (opi, op) in ops.iter().enumerate() {
+        // a payload op is the tablet it decodes to (nothing when refused)
+        let as_learn: Option<(usize, usize, &TabletSpec)> = match op {
+            HOp::Learn(ks, t, tab) => Some((*ks, *t, tab)),
+            HOp::Payload(ks, t, _) => decoded[opi].as_ref().map(|tab| (*ks, *t, tab)),
+            _ => None,
+        };
+        if let Some((ks, t, tab)) = as_learn {
+            let (ks, t) = (&ks, &t);
+            {
                 let (f, l) = (norm_token(tab.first), norm_token(tab.last));
                 let list = shadow.entry((*ks, *t)).or_default();
                 list.retain(|u| !(u.first <= l && f <= u.last));
                 let resolved: Vec<(u64, u32)> = tab.reps.iter().filter(|(h, _)| known.contains(h)).cloned().collect();
                 list.push(ShTablet { first: f, last: l, raw: tab.reps.clone(), failed: resolved.len() != tab.reps.len(), resolved });
             }
-            HOp::Declare(..) => {}
-            HOp::Refresh(ps) => {
+        }
+        match op {
+            HOp::Learn(..) | HOp::Payload(..) | HOp::Declare(..) => {}
+            HOp::Refresh(ps) | HOp::RefreshAcc(ps, _) => {
                 let new: Vec<u64> = ps.iter().map(|p| p.id).collect();
                 for list in shadow.values_mut() {
                     list.retain_mut(|t| {
@@ -802,9 +907,181 @@ fn run_hist(w: &[&str], ctx: &mut Ctx) -> String {
             .map(|t| t.resolved.clone())
             .unwrap_or_default()
     });
-    observe(&cs, final_peers, &kss, &cfg, &rq, tbl, samples, tablet_expect, ctx)
+    observe(&cs, final_peers, &kss, &cfg, &rq, tbl, samples, tablet_expect, None, ctx)
 }
 
+
+// ---------------------------------------------------------------------------------------------
+// stmt cases: the RoutingInfo `Session::execute` builds from a prepared statement and bound values
+
+/// C03 value syntax: hex | `-` (empty) | `N` (null) | `U` (unset) | `z<len>x<hh>` (len bytes, byte i = hh + 7 i).
+fn parse_stmt_val(s: &str) -> Option<Option<Option<Vec<u8>>>> {
+    match s {
+        "N" => Some(Some(None)),
+        "U" => Some(None),
+        _ if s.starts_with('z') => {
+            let (l, h) = s[1..].split_once('x')?;
+            let b = crate::util::unhex(h)?;
+            if b.len() != 1 {
+                return None;
+            }
+            let len: usize = l.parse().ok()?;
+            Some(Some(Some((0..len).map(|i| ((b[0] as usize + 7 * i) % 256) as u8).collect())))
+        }
+        _ => crate::util::unhex(s).map(|b| Some(Some(b))),
+    }
+}
+
+/// A PREPARED RESULT body for table `k<ks>.t<tbl>`: `ncols` blob bind markers, the key columns' marker indexes in
+/// partition-key order, no result metadata.
+fn forge_prepared_for(ks: usize, tbl: usize, ncols: usize, wire: &[u16]) -> bytes::Bytes {
+    fn string(b: &mut Vec<u8>, s: &str) {
+        b.extend_from_slice(&(s.len() as u16).to_be_bytes());
+        b.extend_from_slice(s.as_bytes());
+    }
+    let mut b = Vec::new();
+    b.extend_from_slice(&4i32.to_be_bytes());
+    b.extend_from_slice(&2u16.to_be_bytes());
+    b.extend_from_slice(&[0xc1, 0x2a]);
+    b.extend_from_slice(&1i32.to_be_bytes());
+    b.extend_from_slice(&(ncols as i32).to_be_bytes());
+    b.extend_from_slice(&(wire.len() as i32).to_be_bytes());
+    for ix in wire {
+        b.extend_from_slice(&ix.to_be_bytes());
+    }
+    string(&mut b, &format!("k{}", ks));
+    string(&mut b, &format!("t{}", tbl));
+    for i in 0..ncols {
+        string(&mut b, &format!("c{i}"));
+        b.extend_from_slice(&0x0003u16.to_be_bytes());
+    }
+    b.extend_from_slice(&4i32.to_be_bytes());
+    b.extend_from_slice(&0i32.to_be_bytes());
+    bytes::Bytes::from(b)
+}
+
+fn run_stmt(w: &[&str], ctx: &mut Ctx) -> String {
+    use scylla::frame::protocol_features::ProtocolFeatures;
+    use scylla::statement::prepared::{PartitionKeyError, PartitionKeyExtractionError, TokenCalculationError};
+    use scylla::value::MaybeUnset;
+    use scylla_cql::frame::response::result;
+    let (Some(peers), Some(kss), Some(tables), Some(cfg), Ok(samples)) =
+        (parse_topology(w[1]), parse_strategies(w[2]), parse_tables(w[3]), parse_config(w[4]), w[8].parse::<usize>())
+    else {
+        return "bad-case".into();
+    };
+    if peers.iter().any(|p| parse_flags(&p.flags).is_none()) {
+        return "bad-case".into();
+    }
+    // stmt := cdc/wire/ks/tbl[/lwt]
+    let f: Vec<&str> = w[5].split('/').collect();
+    if !(f.len() == 4 || f.len() == 5) || !(f[0] == "0" || f[0] == "1") || (f.len() == 5 && !(f[4] == "0" || f[4] == "1")) {
+        return "bad-case".into();
+    }
+    let is_lwt = f.len() == 5 && f[4] == "1";
+    let cdc = f[0] == "1";
+    let wire: Option<Vec<u16>> = if f[1] == "-" { Some(vec![]) } else { f[1].split(',').map(|x| x.parse().ok()).collect() };
+    let (Some(wire), Ok(ks), Ok(tbl)) = (wire, f[2].parse::<usize>(), f[3].parse::<usize>()) else {
+        return "bad-case".into();
+    };
+    {
+        let mut d = wire.clone();
+        d.sort_unstable();
+        d.dedup();
+        if d.len() != wire.len() || wire.iter().any(|i| *i >= 4096) {
+            return "bad-case".into();
+        }
+    }
+    let Some(vals) = w[6].split(',').map(parse_stmt_val).collect::<Option<Vec<_>>>() else {
+        return "bad-case".into();
+    };
+    // exec := consistency/serial/pref
+    let e: Vec<&str> = w[7].split('/').collect();
+    if e.len() != 3 {
+        return "bad-case".into();
+    }
+    let (Some(cons), Some(rpref)) = (CONSISTENCIES.iter().find(|(n, _)| *n == e[0]).map(|c| c.1), Pref::parse(e[2])) else {
+        return "bad-case".into();
+    };
+    let serial = match e[1] {
+        "-" => None,
+        "s" => Some(SerialConsistency::Serial),
+        "l" => Some(SerialConsistency::LocalSerial),
+        _ => return "bad-case".into(),
+    };
+    if rpref == Pref::Inherit {
+        return "bad-case".into();
+    }
+
+    // ---- the prepared statement, as `Connection::prepare` builds it from the PREPARED response
+    let prepared = match result::deserialize_with_features(forge_prepared_for(ks, tbl, vals.len(), &wire), None, &ProtocolFeatures::default()) {
+        Ok(result::Result::Prepared(p)) => p,
+        _ => return "bad-case".into(),
+    };
+    // (`is_lwt`: what `Connection::prepare` reads off the LWT mark of the PREPARED response's flags)
+    let ps = scylla::verif_hooks::prepared::statement_from_prepared_lwt(prepared, cdc, is_lwt);
+    if ps.is_confirmed_lwt() != is_lwt {
+        ctx.fail(format!("is_confirmed_lwt() = {} for a statement prepared with the LWT mark {}", ps.is_confirmed_lwt(), is_lwt));
+    }
+    let bound: Vec<MaybeUnset<Option<Vec<u8>>>> = vals
+        .iter()
+        .map(|v| match v {
+            None => MaybeUnset::Unset,
+            Some(x) => MaybeUnset::Set(x.clone()),
+        })
+        .collect();
+    // ---- what `Session::execute` puts into the RoutingInfo (session.rs:1785-1816)
+    let token = match ps.calculate_token(&bound) {
+        Ok(t) => t,
+        Err(PartitionKeyError::PartitionKeyExtraction(PartitionKeyExtractionError::NoPkIndexValue(i, c))) => {
+            return format!("tok=err_noPkIndexValue_{}_{}", i, c);
+        }
+        Err(PartitionKeyError::TokenCalculation(TokenCalculationError::ValueTooLong(n))) => return format!("tok=err_tooLong_{}", n),
+        Err(PartitionKeyError::Serialization(_)) => return "tok=err_serialization".into(),
+        Err(_) => return "tok=err_other".into(),
+    };
+    let spec = ps.get_table_spec();
+    let idx = |name: &str, pre: char| -> Option<usize> { name.strip_prefix(pre).and_then(|x| x.parse().ok()) };
+    let rq = Request {
+        token: token.map(|t| t.value()),
+        ks: spec.and_then(|s| idx(s.ks_name(), 'k')),
+        lwt: ps.is_confirmed_lwt(),
+        consistency: cons,
+        serial,
+        pref: rpref,
+    };
+    let tbl_seen = spec.and_then(|s| idx(s.table_name(), 't')).unwrap_or(0);
+    if spec.is_some() && (rq.ks != Some(ks) || tbl_seen != tbl) {
+        ctx.fail(format!("the statement's table spec is {:?}, the PREPARED response named k{}.t{}", spec, ks, tbl));
+    }
+    // ---- oracle: the token is the servers' token of the serialized key (all key components bound, Murmur3)
+    let comps: Option<Vec<&Vec<u8>>> = wire.iter().map(|i| vals.get(*i as usize).and_then(|v| v.as_ref()).and_then(|v| v.as_ref())).collect();
+    if let (false, false, Some(comps)) = (cdc, wire.is_empty(), comps) {
+        let key: Vec<u8> = if comps.len() == 1 {
+            comps[0].clone()
+        } else {
+            comps.iter().flat_map(|c| (c.len() as u16).to_be_bytes().into_iter().chain(c.iter().copied()).chain(std::iter::once(0u8))).collect()
+        };
+        if comps.iter().all(|c| c.len() <= 65535) {
+            let want = norm_token(crate::c03::reference_murmur3(&key));
+            if rq.token != Some(want) {
+                ctx.fail(format!("routing token {:?} but Cassandra's Murmur3 of the serialized key gives {}", rq.token, want));
+            }
+        }
+    }
+    let cs = cluster(format!("{} {} {}", w[1], w[2], w[3]), || build(&peers, &kss, &tables));
+    let tablet_expect: Option<Vec<(u64, u32)>> = rq.ks.and_then(|k| tables.iter().find(|d| d.ks == k && d.tbl == tbl_seen)).map(|d| {
+        rq.token
+            .and_then(|t| shadow_tablet(&d.tablets, norm_token(t)))
+            .map(|t| t.reps.iter().filter(|(h, _)| peers.iter().any(|p| p.id == *h)).cloned().collect())
+            .unwrap_or_default()
+    });
+    format!(
+        "tok={} {}",
+        rq.token.map(|t| t.to_string()).unwrap_or_else(|| "none".into()),
+        observe(&cs, &peers, &kss, &cfg, &rq, tbl_seen, samples, tablet_expect, token, ctx)
+    )
+}
 
 // ---------------------------------------------------------------------------------------------
 // refill cases: a scripted ScyllaDB-like node (it decides the shard of every connection, closes connections, restarts
@@ -1017,6 +1294,9 @@ enum RStep {
     Shift(u16),
     Close(u32),
     Wait,
+    /// as `Wait`, but the look probes these shard numbers (e.g. numbers computed under the sharder the node had BEFORE
+    /// a restart: the reshard race)
+    Query(Vec<u32>),
 }
 
 fn parse_params(s: &str) -> Option<Option<(u16, u8)>> {
@@ -1040,12 +1320,13 @@ fn parse_rscript(s: &str) -> Option<Vec<RStep>> {
                 "M" => rest.parse::<u16>().ok().filter(|d| *d < 64).map(RStep::Shift),
                 "C" => rest.parse::<u32>().ok().filter(|d| *d < 64).map(RStep::Close),
                 "W" if rest.is_empty() => Some(RStep::Wait),
+                "Q" => rest.split(',').map(|x| x.parse::<u32>().ok()).collect::<Option<Vec<u32>>>().map(RStep::Query),
                 _ => None,
             }
         })
         .collect::<Option<Vec<_>>>()?;
     // the script starts the node and ends with a look at the pool
-    if !matches!(steps.first(), Some(RStep::Restart(_))) || !matches!(steps.last(), Some(RStep::Wait)) {
+    if !matches!(steps.first(), Some(RStep::Restart(_))) || !matches!(steps.last(), Some(RStep::Wait | RStep::Query(_))) {
         return None;
     }
     Some(steps)
@@ -1088,7 +1369,7 @@ async fn run_refill(per_shard: bool, k: usize, port_ok: bool, steps: &[RStep], c
                     tokio::time::sleep(Duration::from_millis(2)).await;
                 }
             }
-            RStep::Wait => {
+            RStep::Wait | RStep::Query(_) => {
                 let params = srv.st.lock().unwrap().params;
                 let target = match params {
                     Some((nr, _)) if per_shard => nr as usize * k,
@@ -1119,7 +1400,11 @@ async fn run_refill(per_shard: bool, k: usize, port_ok: bool, steps: &[RStep], c
                 out.extend(srv.st.lock().unwrap().events.drain(..));
                 let mut items: Vec<String> = vec![format!("cnt={}", c), format!("nr={}", nr.map(|x| x.to_string()).unwrap_or_else(|| "-".into()))];
                 let top = params.map(|p| p.0 as u32).unwrap_or(1);
-                for s in 0..=top {
+                let probes: Vec<u32> = match step {
+                    RStep::Query(l) => l.clone(),
+                    _ => (0..=top).collect(),
+                };
+                for s in probes {
                     tag += 1;
                     let text = format!("SELECT {} FROM verif.refill", tag);
                     match pool.query_on_shard(s, &text).await {
@@ -1325,6 +1610,7 @@ pub fn run(case: &str, ctx: &mut Ctx) -> String {
     match (kind, w.len()) {
         ("plan", 8) => run_plan(&w, ctx),
         ("hist", 8) => run_hist(&w, ctx),
+        ("stmt", 9) => run_stmt(&w, ctx),
         ("refill", 4) => {
             let (Some((per_shard, k)), Some(steps)) = (parse_size(w[1]), parse_rscript(w[3])) else {
                 return "bad-case".into();
@@ -1564,6 +1850,33 @@ fn sharder_flag(rng: &mut Rng) -> String {
     }
 }
 
+/// The bytes a server puts under `tablets-routing-v1` for this tablet: `tuple<bigint, bigint, list<tuple<uuid, int>>>`
+/// with the range given as (first - 1, last].
+fn payload_hex(t: &TabletSpec) -> String {
+    let mut b: Vec<u8> = Vec::new();
+    let cell = |b: &mut Vec<u8>, v: &[u8]| {
+        b.extend_from_slice(&(v.len() as i32).to_be_bytes());
+        b.extend_from_slice(v);
+    };
+    cell(&mut b, &t.first.wrapping_sub(1).to_be_bytes());
+    cell(&mut b, &t.last.to_be_bytes());
+    let mut list: Vec<u8> = Vec::new();
+    list.extend_from_slice(&(t.reps.len() as i32).to_be_bytes());
+    for (h, sh) in &t.reps {
+        let mut item: Vec<u8> = Vec::new();
+        cell(&mut item, &(*h as u128).to_be_bytes());
+        cell(&mut item, &(*sh as i32).to_be_bytes());
+        cell(&mut list, &item);
+    }
+    cell(&mut b, &list);
+    crate::util::hex(&b)
+}
+
+/// One tablet-feedback op: plain (`T`) or as payload bytes (`B`).
+fn learn_op(rng: &mut Rng, ks: usize, t: &TabletSpec) -> String {
+    if rng.chance(1, 3) && t.first > i64::MIN { format!("B{}.0@{}", ks, payload_hex(t)) } else { format!("T{}.0@{}", ks, fmt_tablet(t)) }
+}
+
 fn fmt_tablet(t: &TabletSpec) -> String {
     let reps = if t.reps.is_empty() { "-".to_owned() } else { t.reps.iter().map(|(h, s)| format!("{}.{}", h, s)).collect::<Vec<_>>().join(",") };
     format!("{}_{}_{}", t.first, t.last, reps)
@@ -1575,6 +1888,9 @@ fn fmt_tablet(t: &TabletSpec) -> String {
 /// the peer list, so nobody's address moves).
 fn gen_late_replica(rng: &mut Rng, samples: usize, emit: &mut dyn FnMut(String)) {
     let (dl, dr) = *rng.pick(&[(0u32, 1u32), (1, 0), (1, 3), (2, 0)]);
+    // a third of the histories are driven with a host filter that accepts every peer (ops G / H): no disabled node then
+    let acc = rng.chance(1, 3);
+    let rop = |rng: &mut Rng| if !acc { "R" } else if rng.bool() { "G" } else { "H" };
     let mut next_id = 1u64;
     let mut mk = |rng: &mut Rng, dc: u32, flags: &str| -> PeerSpec {
         let id = next_id;
@@ -1591,7 +1907,7 @@ fn gen_late_replica(rng: &mut Rng, samples: usize, emit: &mut dyn FnMut(String))
     // known nodes: 0..2 local ones (some down), 1..2 remote ones (the known replica is live)
     let mut known: Vec<PeerSpec> = Vec::new();
     for _ in 0..rng.below(3) {
-        let f = *rng.pick(&["", "", "x", "d"]);
+        let f = if acc { *rng.pick(&["", "", "x"]) } else { *rng.pick(&["", "", "x", "d"]) };
         known.push(mk(rng, dl, f));
     }
     let remote_rep = mk(rng, dr, "");
@@ -1627,7 +1943,7 @@ fn gen_late_replica(rng: &mut Rng, samples: usize, emit: &mut dyn FnMut(String))
     if rng.chance(1, 3) && last < 5000 {
         ops.push(format!("T0.0@{}", fmt_tablet(&TabletSpec { first: 5001, last: 6000, reps: vec![(remote_rep.id, 1)] })));
     }
-    ops.push(format!("T0.0@{}", fmt_tablet(&tablet)));
+    ops.push(learn_op(rng, 0, &tablet));
     // the refresh that learns the node
     let mut after = known.clone();
     match rng.below(10) {
@@ -1644,9 +1960,9 @@ fn gen_late_replica(rng: &mut Rng, samples: usize, emit: &mut dyn FnMut(String))
         // ... or nothing is learnt at all (the tablet must then be forgotten)
         _ => {}
     }
-    ops.push(format!("R{}", fmt_topology(&after)));
+    ops.push(format!("{}{}", rop(rng), fmt_topology(&after)));
     if rng.chance(1, 5) {
-        ops.push(format!("R{}", fmt_topology(&after))); // a second refresh that changes nothing
+        ops.push(format!("{}{}", rop(rng), fmt_topology(&after))); // a second refresh that changes nothing
     }
     let topo0 = fmt_topology(&known);
     let ops_s = ops.join("+");
@@ -1688,6 +2004,13 @@ fn gen_random_hist(rng: &mut Rng, samples: usize, emit: &mut dyn FnMut(String)) 
         return;
     }
     random_flags(rng, &mut all);
+    let acc = rng.chance(1, 3);
+    if acc {
+        for p in all.iter_mut() {
+            p.flags = p.flags.replace('d', "");
+        }
+    }
+    let rop = |rng: &mut Rng| if !acc { "R" } else if rng.bool() { "G" } else { "H" };
     add_sharders(rng, &mut all);
     let n_late = rng.below(3).min(all.len() as u64 - 1) as usize;
     let mut late: Vec<PeerSpec> = all.split_off(all.len() - n_late);
@@ -1718,14 +2041,14 @@ fn gen_random_hist(rng: &mut Rng, samples: usize, emit: &mut dyn FnMut(String)) 
                 }
                 let t = TabletSpec { first, last, reps };
                 let ks = if rng.chance(1, 8) { 1 } else { 0 };
-                ops.push(format!("T{}.0@{}", ks, fmt_tablet(&t)));
+                ops.push(learn_op(rng, ks, &t));
                 if ks == 0 {
                     learnt.push(t);
                 }
             }
             5 | 6 if !late.is_empty() => {
                 cur.push(late.remove(0));
-                ops.push(format!("R{}", fmt_topology(&cur)));
+                ops.push(format!("{}{}", rop(rng), fmt_topology(&cur)));
             }
             7 if cur.len() > 1 => {
                 match rng.below(3) {
@@ -1744,10 +2067,10 @@ fn gen_random_hist(rng: &mut Rng, samples: usize, emit: &mut dyn FnMut(String)) 
                     }
                     _ => rng.shuffle(&mut cur),
                 }
-                ops.push(format!("R{}", fmt_topology(&cur)));
+                ops.push(format!("{}{}", rop(rng), fmt_topology(&cur)));
             }
             8 => ops.push("E0.1".into()),
-            _ => ops.push(format!("R{}", fmt_topology(&cur))),
+            _ => ops.push(format!("{}{}", rop(rng), fmt_topology(&cur))),
         }
     }
     let ops_s = ops.join("+");
@@ -1819,8 +2142,14 @@ fn gen_refill(rng: &mut Rng) -> String {
             }
             3 | 4 => {
                 let (n2, p2) = params(rng);
+                let old = nr;
                 nr = n2;
                 steps.push(format!("N{}", p2));
+                if old > 0 && rng.chance(1, 2) {
+                    // the reshard race: shard numbers of the OLD sharder asked of the new pool
+                    steps.push(format!("Q{}", (0..old).map(|x| x.to_string()).collect::<Vec<_>>().join(",")));
+                    continue;
+                }
             }
             5 => {
                 let (n2, p2) = params(rng);
@@ -1845,9 +2174,10 @@ fn tagged(line: String) -> String {
     let w: Vec<&str> = line.split(' ').collect();
     if w.len() == 8 && w[0] == "hist" {
         // tag: what the refreshes of the history do
-        let n_refresh = w[3].split('+').filter(|o| o.starts_with('R')).count();
-        let n_learn = w[3].split('+').filter(|o| o.starts_with('T')).count();
-        return format!("hist.T{}R{} {}", n_learn.min(3), n_refresh.min(3), w[1..].join(" "));
+        let n_refresh = w[3].split('+').filter(|o| o.starts_with('R') || o.starts_with('G') || o.starts_with('H')).count();
+        let accm = if w[3].split('+').any(|o| o.starts_with('G') || o.starts_with('H')) { "acc" } else { "rej" };
+        let n_learn = w[3].split('+').filter(|o| o.starts_with('T') || o.starts_with('B')).count();
+        return format!("hist.{}T{}R{} {}", accm, n_learn.min(3), n_refresh.min(3), w[1..].join(" "));
     }
     if w.len() != 8 || w[0] != "plan" {
         return line;
@@ -1925,6 +2255,9 @@ pub fn generate(rng: &mut Rng, tier: Tier, emit0: &mut dyn FnMut(String)) {
         "refill S1 p N3.12;W;N5.0;W;N0.0;W;N2.12;W",
         "refill S1 p N3.12;W;P2.1;C0;W",
         "refill H3 p N4.0;W;C0;W",
+        "refill S1 p N5.0;W;N2.0;Q0,1,2,3,4,65535,65536",
+        "refill S1 p N4.12;W;N0.0;Q0,1,2,3",
+        "refill S1 p N2.12;W;P6.12;C1;Q0,1,5,6",
     ] {
         collect(l.to_owned());
     }
@@ -2061,6 +2394,79 @@ pub fn generate(rng: &mut Rng, tier: Tier, emit0: &mut dyn FnMut(String)) {
         emit(l);
     }
 
+    // 1b. stmt cases: the routing info comes from a (forged) prepared statement and bound values, as in Session::execute
+    let shape_s = TopoShape { max_nodes: 7, max_dcs: 3, max_racks: 3, max_vnodes: 3, dups: 0 };
+    for _ in 0..if quick { 350 } else { 5000 } {
+        let mut peers = gen_topology(rng, shape_s);
+        if peers.is_empty() {
+            continue;
+        }
+        let n = peers.iter().filter(|p| !p.tokens.is_empty()).count();
+        let kss: Vec<Strat> = vec![
+            if rng.bool() { Strat::Simple(rng.range(1, n.max(1) as i64) as usize) } else { gen_strategy(rng, &peers) },
+            gen_strategy(rng, &peers),
+        ];
+        random_flags(rng, &mut peers);
+        add_sharders(rng, &mut peers);
+        let ring_toks = query_tokens(&peers);
+        let tables: Vec<TableDecl> = if rng.chance(1, 3) { vec![TableDecl { ks: 1, tbl: 0, tablets: gen_tablets(rng, &peers, &ring_toks) }] } else { vec![] };
+        let topo = fmt_topology(&peers);
+        for _ in 0..3 {
+            // 1..4 bind markers; the key columns are some of them, in any order
+            let m = rng.range(1, 4) as usize;
+            let mut idx: Vec<usize> = (0..m).collect();
+            rng.shuffle(&mut idx);
+            let nkey = match rng.below(10) {
+                0 => 0,
+                1..=5 => 1,
+                _ => rng.range(1, m as i64) as usize,
+            };
+            let mut wire: Vec<usize> = idx[..nkey.min(m)].to_vec();
+            if rng.chance(1, 25) && !wire.is_empty() {
+                wire[0] = m + rng.below(2) as usize; // a key marker without a bound value
+            }
+            let vals: Vec<String> = (0..m)
+                .map(|i| {
+                    let is_key = wire.contains(&i);
+                    match rng.below(if is_key { 30 } else { 8 }) {
+                        0 => "N".to_owned(),
+                        1 => "U".to_owned(),
+                        2 => "-".to_owned(),
+                        3 => format!("z{}x{:02x}", rng.range(1, 40), rng.below(256)),
+                        _ => {
+                            let len = rng.range(1, 12) as usize;
+                            crate::util::hex(&rng.bytes(len))
+                        }
+                    }
+                })
+                .collect();
+            let cfg = format!(
+                "{}/{}/{}/{}",
+                gen_pref(rng, &peers, true).fmt(),
+                if rng.chance(9, 10) { "t" } else { "n" },
+                if rng.chance(1, 2) { "f" } else { "n" },
+                if rng.chance(3, 4) { "s" } else { "x" }
+            );
+            let ks = if rng.chance(1, 12) { 3 } else { rng.below(2) };
+            emit(format!(
+                "stmt {} {} {} {} {}/{}/{}/0/{} {} {}/{}/{} {}",
+                topo,
+                fmt_strategies(&kss),
+                fmt_tables(&tables),
+                cfg,
+                if rng.chance(1, 12) { 1 } else { 0 },
+                if wire.is_empty() { "-".to_owned() } else { wire.iter().map(|x| x.to_string()).collect::<Vec<_>>().join(",") },
+                ks,
+                if rng.chance(1, 3) { 1 } else { 0 },
+                vals.join(","),
+                *rng.pick(&["one", "lq", "quorum", "quorum", "serial", "lserial"]),
+                *rng.pick(&["-", "s", "l"]),
+                gen_pref(rng, &peers, false).fmt(),
+                samples
+            ));
+        }
+    }
+
 
     // 2b. histories: tablet updates interleaved with metadata refreshes
     for _ in 0..if quick { 500 } else { 6000 } {
@@ -2079,6 +2485,9 @@ pub fn generate(rng: &mut Rng, tier: Tier, emit0: &mut dyn FnMut(String)) {
         "plan 1:0:0:5 S1 0.0+0.0 a/t/f/s 5/0/0/one/-/a 0 3",
         "plan 1:0:0:5 S1 - a/t/f/s 5/0/0/one/-/i 0 3",
         "hist 1:0:0:5 S1 X0.0 a/t/f/s 5/0/0/one/-/a 0 3",
+        "hist 1:0:0:5 S1 B0.0@zz a/t/f/s 5/0/0/one/-/a 0 3",
+        "hist 1:0:0:5 S1 R1:0:0:5+G1:0:0:5 a/t/f/s 5/0/0/one/-/a 0 3",
+        "hist 1:0:0:5:d S1 G1:0:0:5:d a/t/f/s 5/0/0/one/-/a 0 3",
         "hist 1:0:0:5 S1 T0.0@5_1_1.0 a/t/f/s 5/0/0/one/-/a 0 3",
         "hist 1:0:0:5:s2m1 S1 R1:0:0:5:s3m1 a/t/f/s 5/0/0/one/-/a 0 3",
         "hist 1:0:0:5 S1 R1:0:0:5;1:0:0:6 a/t/f/s 5/0/0/one/-/a 0 3",
@@ -2089,6 +2498,12 @@ pub fn generate(rng: &mut Rng, tier: Tier, emit0: &mut dyn FnMut(String)) {
         "refill S1 q N3.12;W",
         "refill S1 p N3.64;W",
         "refill S1 p N3.12;X;W",
+        "stmt 1:0:0:5 S1 - a/t/f/s 0/0,0/0/0 aa,bb one/-/a 3",
+        "stmt 1:0:0:5 S1 - a/t/f/s 0/5000/0/0 aa one/-/a 3",
+        "stmt 1:0:0:5 S1 - a/t/f/s 2/0/0/0 aa one/-/a 3",
+        "stmt 1:0:0:5 S1 - a/t/f/s 0/0/0/0/2 aa one/-/a 3",
+        "stmt 1:0:0:5 S1 - a/t/f/s 0/0/0/0 zz one/-/a 3",
+        "stmt 1:0:0:5 S1 - a/t/f/s 0/0/0/0 aa one/-/i 3",
         "pool 0 12 S1 p 0",
         "pool 4 64 S1 p 0",
         "pool 4 12 S0 p 0",
